@@ -10,7 +10,8 @@ import (
 )
 
 func Loader(r io.Reader) (kong.Resolver, error) {
-	iniFile, err := ini.Load(r)
+	// values are taken as they are: '#' or ';' inside value (i.e. path) doesn't start comment
+	iniFile, err := ini.LoadSources(ini.LoadOptions{IgnoreInlineComment: true}, r)
 	if err != nil {
 		return nil, fmt.Errorf("error loading ini file: %w", err)
 	}
